@@ -168,12 +168,14 @@ func isMutating(k string) bool {
 func (l *lockstep) step(o fsx.Op) stepResult {
 	cls := fsx.OpClass(l.osx.FS, o)
 	l.keepMtime = 0
-	zeroTimes := o.K == "Chtimes" && o.N == -1
+	zeroTimes := o.K == "Chtimes" && (o.N == -1 || o.N == -2) // -2: only the access time is given
 	var mtE, mtO int64
 	if zeroTimes {
 		// the zero time asks os.Chtimes to leave the times alone: whether the modification time moves is compared
 		mtE, mtO = mtimeOf(l.emu.FS, o.P), mtimeOf(l.osx.FS, o.P)
 	} else if o.K == "Chtimes" {
+		// (also when only the modification time is given, -3: its fixed sentinel would not be unique in the history, and
+		// a directory keeps or loses an old sentinel depending on who updates directory times, which is not compared)
 		o.N = int64(len(l.hist) + 10) // sentinel unique to this call
 		l.keepMtime = fsx.SentinelTime(o.N).UnixNano()
 	}
